@@ -919,6 +919,7 @@ func (ro *RedisOutput) sendCmdsBatch(replayWait usync.WaitCloser, conn client.Re
 	defer updateCpTicker.Stop()
 
 	cpInDbs := make(map[int]struct{})
+	connDb := -1 // db of the last command put on the connection, -1 : none yet
 
 	// transaction : call sendFunc when command is "exec", never break down a transaction
 	// non-transaction : call sendFunc when queue is full or ticker is delivered
@@ -986,6 +987,9 @@ func (ro *RedisOutput) sendCmdsBatch(replayWait usync.WaitCloser, conn client.Re
 
 		batcher := conn.NewBatcher(isPipeline)
 		cmdCounter := uint(0)
+		if len(cmdQueue) > 0 {
+			connDb = cmdQueue[len(cmdQueue)-1].Db
+		}
 
 		if shouldInTransaction {
 			batcher.Put("multi")
@@ -1004,12 +1008,12 @@ func (ro *RedisOutput) sendCmdsBatch(replayWait usync.WaitCloser, conn client.Re
 
 		if shouldUpdateCP {
 			if ro.cfg.EnableResumeFromBreakPoint {
-				if len(cmdQueue) > 0 {
-					lastCmd := cmdQueue[len(cmdQueue)-1]
-					if _, ok := cpInDbs[lastCmd.Db]; !ok {
-						cpInDbs[lastCmd.Db] = struct{}{}
-						batcher.Put("hset", checkpointKv.Key, checkpointKv.RunIdKey(), runId, checkpointKv.VersionKey(), config.Version)
-					}
+				// the offset is written into the db the connection is in, i.e. the db of the
+				// last command sent so far (not only of this batch, which may be empty);
+				// an offset without run id in that db would be unreadable and hide older checkpoints
+				if _, ok := cpInDbs[connDb]; !ok {
+					cpInDbs[connDb] = struct{}{}
+					batcher.Put("hset", checkpointKv.Key, checkpointKv.RunIdKey(), runId, checkpointKv.VersionKey(), config.Version)
 				}
 				batcher.Put("hset", checkpointKv.Key, checkpointKv.OffsetKey(), lastOffset)
 			} else {
